@@ -100,6 +100,8 @@ def run_ape(rel, ref_path, est_path):
         return {"err": "E_METRICS:len" if "same number" in s else "E_METRICS:rel" if "unsupported" in s else "E_METRICS:?" + s}
     except LieAlgebraException:
         return {"err": "E_GEOMETRY"}
+    except Exception as e:  # noqa: any other failure is reported, never a tool crash
+        return {"err": "EXC:" + type(e).__name__}
     return {"ok": [float(v) for v in np.asarray(m.error).reshape(-1)], "unit": m.unit.value}
 
 
